@@ -162,7 +162,11 @@ def rsym(rng, n, kind):
         ev = numpy.sort(rng.integers(0, 3, size=n).astype(float))
         return q @ numpy.diag(ev) @ q.T
     if kind == "diagonal":
-        return numpy.diag(numpy.sort(rng.normal(size=n)))
+        # already diagonal, the levels in any order (two uncoupled sites with E1 > E2), possibly with equal ones
+        d_ = rng.normal(size=n)
+        if n >= 3 and rng.random() < 0.3:
+            d_[-1] = d_[-2]
+        return numpy.diag(d_ if rng.random() < 0.7 else numpy.sort(d_))
     if kind == "complex":
         a = rng.normal(size=(n, n)) + 1j * rng.normal(size=(n, n))
         return (a + numpy.conj(a).T) / 2
@@ -891,6 +895,8 @@ def run_case(case, ctx):
                 dg = dag(S) @ Acur @ S
                 ctx.check("presented-in-context-basis", float(numpy.max(numpy.abs(dg - numpy.diag(numpy.diag(dg))))), 1e-9 * scale(A.ref) * n,
                           {"what": "the stacked transformation diagonalises the context operator", "level": level + 1})
+                ctx.check("context-operator-diagonal-ascending", float(numpy.max(numpy.abs(numpy.real(numpy.diag(dg)) - numpy.linalg.eigvalsh(A.ref)))), 1e-9 * scale(A.ref) * n,
+                          {"what": "the context basis orders the eigenvalues ascending (whether or not the operator was read)", "level": level + 1, "kind": A.kind})
                 ctx.require("bookkeeping-restored", m.current_basis_operator is A.obj, {"what": "current_basis_operator inside the context", "level": level + 1})
                 entered["S"] = S
                 armed = False
